@@ -67,7 +67,9 @@ var cmpOps = []string{"<", "<=", ">", ">=", "==", "!="}
 
 // where a leaf value comes from: literal, variable, Go call returning interface{}, element of a
 // list literal / of a list held in a variable, map entry, ternary
-var provs = []string{"lit", "lit", "lit", "var", "var", "id", "id", "elem", "velem", "mapv", "tern"}
+// goint: an integer handed over by a Go function as a plain Go int (what strconv.Atoi, len-like
+// helpers and struct fields give): the same number, so every operator must treat it like the int64
+var provs = []string{"lit", "lit", "lit", "var", "var", "id", "id", "elem", "velem", "mapv", "tern", "goint"}
 
 func genLeaf(t *rapid.T, k string) *Node {
 	n := &Node{Op: "leaf", K: k, Prov: rapid.SampledFrom(provs).Draw(t, "prov")}
@@ -134,7 +136,7 @@ func genStr(t *rapid.T, depth int) *Node {
 		return &Node{Op: "+", L: genNum(t, rapid.SampledFrom([]string{"i", "f"}).Draw(t, "nk"), depth-1), R: genStr(t, depth-1)}
 	default:
 		// string * n with a small (possibly negative) count leaf
-		cnt := &Node{Op: "leaf", K: "i", I: rapid.Int64Range(-2, 6).Draw(t, "cnt"), Prov: rapid.SampledFrom([]string{"lit", "var", "id"}).Draw(t, "prov")}
+		cnt := &Node{Op: "leaf", K: "i", I: rapid.Int64Range(-2, 6).Draw(t, "cnt"), Prov: rapid.SampledFrom([]string{"lit", "var", "id", "goint"}).Draw(t, "prov")}
 		return &Node{Op: "*", L: genStr(t, depth-1), R: cnt}
 	}
 }
@@ -240,6 +242,11 @@ func (p *printer) expr(n *Node) string {
 			return "{\"k\": " + lit + "}.k"
 		case "tern":
 			return "(true ? " + lit + " : 0)"
+		case "goint":
+			if n.K == "i" {
+				return "gi(" + lit + ")"
+			}
+			return "id(" + lit + ")"
 		}
 		return lit
 	case "neg":
@@ -269,6 +276,12 @@ func level(op string) int {
 
 func source(c Case) string {
 	p := &printer{flat: c.Flat}
+	if c.Root != nil && c.Root.Op == "leaf" && c.Root.Prov == "goint" {
+		// a bare leaf as the whole program: the Go int would come back as it is, no operator is involved
+		leaf := *c.Root
+		leaf.Prov = "id"
+		c.Root = &leaf
+	}
 	e := p.expr(c.Root)
 	return strings.Join(append(p.vars, e), "\n")
 }
@@ -486,6 +499,7 @@ func sprint(v val) string {
 func newEnv() *env.Env {
 	e := env.NewEnv()
 	e.Define("id", func(x interface{}) interface{} { return x })
+	e.Define("gi", func(x int64) int { return int(x) }) // int is 64 bits wide on every platform the checks run on
 	return e
 }
 
@@ -622,7 +636,7 @@ func genHist(t *rapid.T) HistCase {
 
 func genSmallTree(t *rapid.T, depth int) *Node {
 	if depth <= 0 {
-		return &Node{Op: "leaf", K: "i", I: int64(rapid.IntRange(-2, 70).Draw(t, "leaf")), Prov: rapid.SampledFrom([]string{"lit", "var", "id"}).Draw(t, "prov")}
+		return &Node{Op: "leaf", K: "i", I: int64(rapid.IntRange(-2, 70).Draw(t, "leaf")), Prov: rapid.SampledFrom([]string{"lit", "var", "id", "goint"}).Draw(t, "prov")}
 	}
 	switch rapid.IntRange(0, 7).Draw(t, "shape") {
 	case 0:
